@@ -162,3 +162,9 @@ Definition qcentroid (l : list qpt) : qpt :=
       let area := a * (1 # 2) in
       (cx / (6 * area) + fst s, cy / (6 * area) + snd s)
   end.
+
+(** split_column: centre of the shrunk column afterwards.  [gen_split_recentre] is read from the AST:
+    true iff `col.centre = col.centroid` runs unconditionally after `del col.node[...]`; otherwise
+    the old quadrilateral's centre may survive (columns with a specified centre) *)
+Definition qsplit_kept (cs : list qpt) (c : qpt) (i0 : nat) : list qpt := map (qvpos cs c i0) (nth 0 split_entry []).
+Definition qsplit_new_centre (c_old : qpt) (kept : list qpt) : qpt := if gen_split_recentre then qcentroid kept else c_old.
